@@ -226,7 +226,7 @@ def cfg_case(spec, rnd, res):
             want = dict(os.environ) if r['copy_env'] else {}
             want.update(r['env'])
             res.obs['cfg_spawns_checked'] += 1
-            got = p.env or {}
+            got = dict(os.environ) if p.env is None else p.env      # env=None: the child inherits the daemon's
             if got != want:
                 extra = {k_: got[k_] for k_ in got if k_ not in want}
                 wrong = {k_: (got.get(k_), want[k_]) for k_ in want if got.get(k_) != want[k_]}
@@ -263,8 +263,16 @@ def gen_sim(rnd):
         conf['env'] = None                       # no environment configured at all
         conf['cmd'] = 'w_a --wid $(circus.wid) --k ((circus.env.Kk))'
     conf['working_dir'] = rnd.choice(['/tmp', '/', '/usr'])
-    return {'kill_latency': rnd.choice([0.0, 0.002]), 'watchers': [conf],
-            'steps': simgen.gen_steps(rnd, ['a'], KINDS, 2, 9)}
+    steps = simgen.gen_steps(rnd, ['a'], KINDS, 2, 9)
+    if rnd.random() < .4:
+        # the configuration is changed at run time (`set`): workers spawned afterwards run the new one
+        for _ in range(rnd.randint(1, 2)):
+            opt = rnd.choice([{'env': {'Kk': 'v2', 'NEW': 'n'}}, {'env': {'Kk': 'v 3'}},
+                              {'cmd': 'w_a --wid $(circus.wid) --k2 ((circus.env.Kk)) x'},
+                              {'args': "--m $(circus.env.Kk) 'q r'"}, {'args': ['--l', '$(circus.wid)']},
+                              {'working_dir': '/var'}])
+            steps.insert(rnd.randint(0, len(steps)), ['setcfg', opt])
+    return {'kill_latency': rnd.choice([0.0, 0.002]), 'watchers': [conf], 'steps': steps}
 
 
 @gen.coroutine
@@ -290,9 +298,29 @@ def _sim(w, h, res):
         if bad or len(set(wids)) != len(wids):
             res.violation('C13/wids-not-unique-positive', '%s: live workers %s have wids %s' % (where, live, wids),
                           steps=h['steps'])
+    base_env = dict(os.environ) if conf.get('copy_env') else {}
+    base_env.update(conf['env'] or {})
+    # configuration epochs: (virtual time from which it is in force, cmd, args, env, working_dir)
+    epochs = [(-1.0, conf['cmd'], conf.get('args'), base_env, conf['working_dir'])]
     for i, st in enumerate(h['steps']):
         if w.stalled is not None:
             break
+        if st[0] == 'setcfg':
+            t0 = k.clock.now
+            mid = w.req('set', name='a', options=dict(st[1]), waiting=False)
+            rep = w.reply(mid)
+            if isinstance(rep, dict) and rep.get('status') == 'ok':
+                _, c_, a_, e_, d_ = epochs[-1]
+                o = st[1]
+                epochs.append((t0, o.get('cmd', c_), o.get('args', a_), dict(o['env']) if 'env' in o else e_,
+                               o.get('working_dir', d_)))
+                res.obs['configuration_changed_by_set'] += 1
+            else:
+                res.obs['set_refused(not applied)'] += 1
+            yield w.advance(0)
+            if w.stalled is None:
+                uniq('after step %d %s' % (i, st))
+            continue
         yield r.do(i, st)
         # unique "through any history": also while a (non-exclusive) kill is in its grace period
         if w.stalled is None:
@@ -301,32 +329,35 @@ def _sim(w, h, res):
         ok = yield quiesce(w)
         if ok:
             uniq('final quiescent point')
-    base_env = dict(os.environ) if conf.get('copy_env') else {}
-    base_env.update(conf['env'] or {})
     nsp = 0
     for p in k.procs.values():
         if not p.spawn_no or p.tag != 'w_a':
             continue
         nsp += 1
+        ep = [e for e in epochs if e[0] <= p.created][-1]
+        _, cmd_, args_, env_, cwd_ = ep
+        if ep is not epochs[0]:
+            res.obs['spawns_checked_after_a_set'] += 1
         wid = p.argv[2] if len(p.argv) > 2 else '?'
         vars_ = {'wid': wid}
-        if conf['env']:
-            vars_.update({'env.kk': 'val', 'env.other': 'o'})
-        if conf.get('copy_env'):
-            for kk, vv in os.environ.items():
-                vars_.setdefault('env.' + kk.lower(), vv)
+        for kk, vv in env_.items():
+            vars_['env.' + kk.lower()] = vv
         try:
-            want = argv_model(conf['cmd'], conf.get('args'), vars_)
+            want = argv_model(cmd_, args_, vars_)
         except SplitError:
             continue
         if p.argv != want:
-            res.violation('C13/spawn-argv-differs', 'spawned argv %r, model %r' % (p.argv, want))
-        if (p.env or {}) != base_env:
-            diff = set((p.env or {}).items()) ^ set(base_env.items())
+            res.violation('C13/spawn-argv-differs' + ('[after-set]' if ep is not epochs[0] else ''),
+                          'spawned argv %r, model %r (configuration in force: cmd=%r args=%r env=%r)'
+                          % (p.argv, want, cmd_, args_, {a: b for a, b in env_.items() if a not in os.environ}),
+                          steps=h['steps'])
+        eff_env = dict(os.environ) if p.env is None else p.env     # env=None: the child inherits the daemon's
+        if eff_env != env_:
+            diff = set(eff_env.items()) ^ set(env_.items())
             res.violation('C13/spawn-env-differs[copy_env=%s]' % conf.get('copy_env'),
                           'worker environment differs from the configured one: %s' % sorted(diff)[:6])
-        if p.cwd != conf['working_dir']:
-            res.violation('C13/spawn-cwd-differs', 'cwd %r, configured %r' % (p.cwd, conf['working_dir']))
+        if p.cwd != cwd_:
+            res.violation('C13/spawn-cwd-differs', 'cwd %r, configured %r' % (p.cwd, cwd_))
         if p.popen_kw.get('shell'):
             res.violation('C13/unexpected-shell', 'shell=True passed to the process-creation call')
     res.obs['spawns_checked'] += nsp
